@@ -493,16 +493,16 @@ fn content_spec(input: &str) -> IResult<&str, model::DeclarationContent<'_>> {
 ///
 /// [\[47\] children](https://www.w3.org/TR/2008/REC-xml-20081126/#NT-children)
 fn children(input: &str) -> IResult<&str, model::DeclarationContentItem<'_>> {
-    alt((
-        map(
-            tuple((seq, opt(alt((tag("?"), tag("*"), tag("+")))))),
-            |(v, q)| model::DeclarationContentItem::Seq(v, q),
-        ),
-        map(
-            tuple((choice, opt(alt((tag("?"), tag("*"), tag("+")))))),
-            |(v, q)| model::DeclarationContentItem::Choice(v, q),
-        ),
-    ))(input)
+    map(
+        tuple((choice_or_seq, opt(alt((tag("?"), tag("*"), tag("+")))))),
+        |((v, choice), q)| {
+            if choice {
+                model::DeclarationContentItem::Choice(v, q)
+            } else {
+                model::DeclarationContentItem::Seq(v, q)
+            }
+        },
+    )(input)
 }
 
 /// (Name | choice | seq) ('?' | '*' | '+')?
@@ -512,14 +512,7 @@ fn children(input: &str) -> IResult<&str, model::DeclarationContentItem<'_>> {
 /// [\[18\] cp](https://www.w3.org/TR/2009/REC-xml-names-20091208/#NT-cp)
 fn cp(input: &str) -> IResult<&str, model::DeclarationContentItem<'_>> {
     alt((
-        map(
-            tuple((seq, opt(alt((tag("?"), tag("*"), tag("+")))))),
-            |(v, q)| model::DeclarationContentItem::Seq(v, q),
-        ),
-        map(
-            tuple((choice, opt(alt((tag("?"), tag("*"), tag("+")))))),
-            |(v, q)| model::DeclarationContentItem::Choice(v, q),
-        ),
+        children,
         map(
             tuple((qname, opt(alt((tag("?"), tag("*"), tag("+")))))),
             |(v, q)| model::DeclarationContentItem::Name(v, q),
@@ -530,39 +523,35 @@ fn cp(input: &str) -> IResult<&str, model::DeclarationContentItem<'_>> {
 /// '(' S? cp ( S? '|' S? cp )+ S? ')'
 ///
 /// [\[49\] choice](https://www.w3.org/TR/2008/REC-xml-20081126/#NT-choice)
-fn choice(input: &str) -> IResult<&str, Vec<model::DeclarationContentItem<'_>>> {
-    map(
-        delimited(
-            tuple((tag("("), multispace0)),
-            tuple((
-                cp,
-                many1(preceded(tuple((multispace0, tag("|"), multispace0)), cp)),
-            )),
-            tuple((multispace0, tag(")"))),
-        ),
-        |(f, mut r)| {
-            r.insert(0, f);
-            r
-        },
-    )(input)
-}
-
+///
 /// '(' S? cp ( S? ',' S? cp )* S? ')'
 ///
 /// [\[50\] seq](https://www.w3.org/TR/2008/REC-xml-20081126/#NT-seq)
-fn seq(input: &str) -> IResult<&str, Vec<model::DeclarationContentItem<'_>>> {
+///
+/// The group is read once and its first separator tells a choice (true) from a seq (false):
+/// reading it as a seq and, when that fails, again as a choice doubles the work at every level of nesting.
+fn choice_or_seq(input: &str) -> IResult<&str, (Vec<model::DeclarationContentItem<'_>>, bool)> {
     map(
         delimited(
             tuple((tag("("), multispace0)),
             tuple((
                 cp,
-                many0(preceded(tuple((multispace0, tag(","), multispace0)), cp)),
+                alt((
+                    map(
+                        many1(preceded(tuple((multispace0, tag("|"), multispace0)), cp)),
+                        |r| (r, true),
+                    ),
+                    map(
+                        many0(preceded(tuple((multispace0, tag(","), multispace0)), cp)),
+                        |r| (r, false),
+                    ),
+                )),
             )),
             tuple((multispace0, tag(")"))),
         ),
-        |(f, mut r)| {
+        |(f, (mut r, choice))| {
             r.insert(0, f);
-            r
+            (r, choice)
         },
     )(input)
 }
